@@ -250,15 +250,27 @@ def rbStep (order1 : Bool) (h : α) (dv : α × α) (f0 f1 : α) : α × α :=
   if order1 then (dv.1 + G * dv.2 + A * (f0 + f1 / 2), dv.2 + Ap * (f0 + f1))
   else (dv.1 + G * dv.2 + ((3 / 2) * A) * f0, dv.2 + (2 * Ap) * f0)
 
+/-- the loop over the rigid-body rows of `_solve_complex_unc`
+(`di = drb[:, i+1] = di + G*vi + AF[:, i]`, `vi = vrb[:, i+1] = vi + AFp[:, i]`), one mode -/
+def rbRun (order1 : Bool) (h : α) (dv : α × α) : List α → List (α × α)
+  | [] => []
+  | [_] => [dv]
+  | f0 :: f1 :: fs => dv :: rbRun order1 h (rbStep order1 h dv f0 f1) (f1 :: fs)
+
 end coef
 
 /-! ### classification (`pvrb`, `pvrb_damped`, `pvdisp`, `pvundr/pvcrit/pvover`, the
 "Partitioning problem" error).  The cut-off values are parameters so that the same function is
-used with the `Float` cut-offs of the source (`Drivers/C01.lean`) and in statements. -/
+used with the `Float` cut-offs of the source (`Model/SuCoefCuts.lean`: `cutsGenF`, built from the
+literals that `harness/translate/c01_sucoefcuts.py` extracts from the source into
+`Generated/SuCoefCuts.lean`) and in statements (`Props/C01Cuts.lean`).  The three tests of the
+elastic regimes carry their own literal each, as in the source. -/
 
 structure Cuts (α : Type) where
-  rbTol   : α   -- 0.005            : `wo2 < rbTol` (auto-detection inside get_su_coef)
-  critTol : α   -- 1.0e-8           : `|w2/wo2| < critTol`
+  rbTol    : α  -- 0.005            : `wo2 < rbTol` (auto-detection inside get_su_coef)
+  underTol : α  -- 1.0e-8           : `rat >= underTol`
+  critTol  : α  -- 1.0e-8           : `abs(rat) < critTol`
+  overTol  : α  -- 1e-8             : `rat <= -overTol`
   veloCut : α   -- 1e-5/sqrt(h)     : `|C| > veloCut`
   dispCut : α   -- 10*(1e-10/h)^(1/3): `|C| > dispCut`
 
@@ -283,10 +295,15 @@ def classify (cut : Cuts α) (m b k : α) (rbGiven : Option Bool) (isRf : Bool) 
   else if isRf then some .rf
   else
     let rat := w2 / wo2
-    if cut.critTol ≤ rat then some .under
-    else if TransOps.abs rat < cut.critTol then some .crit
-    else if rat ≤ -cut.critTol then some .over
-    else none   -- NaN ratio (0/0): no regime claims the mode
+    -- `rfmodes2 + pvrb + pvundr + pvover + pvcrit == 1`: exactly one of the three tests must hold
+    let u : Bool := decide (cut.underTol ≤ rat)
+    let c : Bool := decide (TransOps.abs rat < cut.critTol)
+    let o : Bool := decide (rat ≤ -cut.overTol)
+    match u, c, o with
+    | true, false, false => some .under
+    | false, true, false => some .crit
+    | false, false, true => some .over
+    | _, _, _ => none   -- no regime (NaN ratio 0/0) or more than one: "Partitioning problem"
 
 end classify
 
